@@ -26,7 +26,7 @@ ASSUMPTIONS = [
     "which matched pair full_join forms beyond 'every left and right row at least once, never unequal keys' is not pinned (DESIGN 3.1)",
 ]
 BOUND = {
-    "quick": "one key: rows 0..3 a side over {NA,k1,k2} (40x40 pairs) for 11 key kinds x {same-name, renamed} x 5 joins; two keys: rows 0..2 a side over {NA,lo,hi}^2 (91x91 pairs) for 4 kind pairs x 5 joins",
+    "quick": "one key: rows 0..3 a side over {NA,k1,k2} (40x40 pairs) for 12 key kinds x {same-name, renamed} x 5 joins; two keys: rows 0..2 a side over {NA,lo,hi}^2 (91x91 pairs) for 4 kind pairs x 5 joins",
     "thorough": "one key: rows 0..3 a side over {NA,k1,k2,k3} (85x85 pairs) and rows 0..4 over {NA,k1,k2} (121x121) for 12 key kinds x {same-name, renamed} x 5 joins; two keys: rows 0..2 a side for 8 kind pairs",
 }
 TIME_CAP = {"quick": 300, "thorough": 3000}
@@ -46,7 +46,7 @@ KEY_ALPHA = {
     "obj": [None, 1, 2, 3],
     "td": [None, "1", "3", "-2"],
 }
-KINDS_Q = ["f8", "f8c", "i8", "b1", "str", "U", "D", "us", "ns", "td", "obj"]
+KINDS_Q = ["f8", "f8z", "f8c", "i8", "b1", "str", "U", "D", "us", "ns", "td", "obj"]
 KINDS_T = ["f8", "f8z", "f8c", "i8", "b1", "str", "U", "D", "us", "ns", "td", "obj"]
 PAIRS_Q = [("f8", "str"), ("str", "D"), ("i8", "f8"), ("D", "obj")]
 PAIRS_T = PAIRS_Q + [("U", "us"), ("b1", "str"), ("f8", "f8"), ("str", "str")]
